@@ -487,6 +487,9 @@ func (tb *TB) phi(p *ssa.Phi, e *Env) *Term {
 }
 
 func mkPhi(alts []*Term) *Term {
+	if len(alts) == 1 {
+		return alts[0]
+	}
 	var flat []*Term
 	seen := map[string]bool{}
 	for _, a := range alts {
@@ -508,7 +511,9 @@ func mkPhi(alts []*Term) *Term {
 		return flat[0]
 	}
 	sort.Slice(flat, func(i, j int) bool { return flat[i].String() < flat[j].String() })
-	return mk("phi", "", flat...)
+	r := mk("phi", "", flat...)
+	r.Typ = flat[0].Typ
+	return r
 }
 
 // normIte puts conditions in positive form: ite(!c,a,b) = ite(c,b,a); ite(x!=y,a,b) = ite(x==y,b,a).
